@@ -512,3 +512,35 @@ func init() {
 	mut("C19", "Accept does not abort when the peer's header is unacceptable", true, "handshake|gateway.Accept:aborts-on-failure",
 		Edit{"gateway/transport.go", "\tif err := readHeader(conn, ourHeader, &p.Addr, &p.UniqueID); err != nil {\n\t\treturn nil, fmt.Errorf(\"could not read peer's header: %w\", err)\n\t} else if err := writeHeader(conn, ourHeader); err != nil {\n\t\treturn nil, fmt.Errorf(\"could not write our header: %w\", err)\n\t}\n\t// establish mux\n\tvar err error\n\tp.mux, err = mux.AcceptAnonymous(conn)", "\treadHeader(conn, ourHeader, &p.Addr, &p.UniqueID)\n\tif err := writeHeader(conn, ourHeader); err != nil {\n\t\treturn nil, fmt.Errorf(\"could not write our header: %w\", err)\n\t}\n\t// establish mux\n\tvar err error\n\tp.mux, err = mux.AcceptAnonymous(conn)"})
 }
+
+func init() {
+	// ---- C20 ----
+	ty, po, st := "types/types.go", "types/policy.go", "consensus/state.go"
+	mut("C20", "unmarshalHex accepts over-long input", true, "unmarshal-guards|unmarshalHex:too-long",
+		Edit{ty, "\tif len(data) > len(dst)*2 {\n\t\treturn errors.New(\"input too long\")\n\t}\n\tn, err := hex.Decode(dst, data)", "\tif len(data) > len(dst)*2 {\n\t\tdata = data[:len(dst)*2]\n\t}\n\tn, err := hex.Decode(dst, data)"})
+	mut("C20", "unmarshalHex accepts short input", true, "unmarshal-guards|unmarshalHex:too-short",
+		Edit{ty, "\tif err == nil && n < len(dst) {\n\t\terr = io.ErrUnexpectedEOF\n\t}\n", "\t_ = n\n"})
+	mut("C20", "Address.UnmarshalText stops verifying the checksum", true, "unmarshal-guards|Address:checksum",
+		Edit{ty, "\t} else if checksum := HashBytes(withChecksum[:32]); !bytes.Equal(checksum[:6], withChecksum[32:]) {\n\t\treturn errors.New(\"bad checksum\")\n\t}", "\t}"})
+	mut("C20", "PublicKey.UnmarshalText accepts any algorithm prefix", true, "unmarshal-guards|PublicKey:prefix",
+		Edit{ty, "\t} else if string(b[:i]) != \"ed25519\" {\n\t\treturn fmt.Errorf(\"unknown algorithm %q\", b[:i])\n\t}\n\treturn unmarshalHex(pk[:], b[i+1:])", "\t}\n\treturn unmarshalHex(pk[:], b[i+1:])"})
+	mut("C20", "BlockID.UnmarshalText decodes without length checks", true, "unmarshal-guards|types.BlockID:delegates",
+		Edit{ty, "func (bid *BlockID) UnmarshalText(b []byte) error { return unmarshalHex(bid[:], b) }", "func (bid *BlockID) UnmarshalText(b []byte) error {\n\t_, err := hex.Decode(bid[:], b[:min(len(b), 64)])\n\treturn err\n}"})
+	mut("C20", "resolution JSON writes the storage-proof tag for expirations", true, "sum-tags|V2FileContractResolution/JSON",
+		Edit{ty, "\tcase *V2FileContractExpiration:\n\t\ttyp = v2ResolutionExpiration\n\tdefault:\n\t\tpanic(fmt.Sprintf(\"unhandled file contract resolution type %T\"", "\tcase *V2FileContractExpiration:\n\t\ttyp = v2ResolutionStorageProof\n\tdefault:\n\t\tpanic(fmt.Sprintf(\"unhandled file contract resolution type %T\""})
+	mut("C20", "SpendPolicy JSON reader spells the threshold tag differently", true, "sum-tags|SpendPolicy/JSON",
+		Edit{po, "\tcase \"thresh\":\n\t\tvar pt PolicyTypeThreshold", "\tcase \"threshold\":\n\t\tvar pt PolicyTypeThreshold"})
+	mut("C20", "SpendPolicy.String prints hash policies as hash(...)", true, "sum-tags|SpendPolicy/String",
+		Edit{po, "sb.WriteString(\"h(\")", "sb.WriteString(\"hash(\")"})
+	mut("C20", "StorageProof JSON writes the leaf under another key", true, "json-keys|types.StorageProof",
+		Edit{ty, "\t\tLeaf     string         `json:\"leaf\"`\n\t\tProof    []Hash256      `json:\"proof\"`\n\t}{sp.ParentID, hex.EncodeToString(sp.Leaf[:]), sp.Proof})", "\t\tLeaf     string         `json:\"leafData\"`\n\t\tProof    []Hash256      `json:\"proof\"`\n\t}{sp.ParentID, hex.EncodeToString(sp.Leaf[:]), sp.Proof})"})
+	mut("C20", "ParseSpendPolicy parses the threshold with 64 bits and truncates", true, "parse-width|ParseSpendPolicy",
+		Edit{po, "\t\t\tn := parseInt(8)\n", "\t\t\tn := parseInt(64)\n"})
+	mut("C20", "a diff type gains an unexported cached field", true, "hidden-state|consensus.SiacoinElementDiff.cachedID",
+		Edit{st, "type SiacoinElementDiff struct {\n\tSiacoinElement types.SiacoinElement `json:\"siacoinElement\"`", "type SiacoinElementDiff struct {\n\tcachedID       types.Hash256\n\tSiacoinElement types.SiacoinElement `json:\"siacoinElement\"`"})
+	mut("C20", "ChainIndex loses its UnmarshalText", true, "pairing|types.ChainIndex:UnmarshalText",
+		Edit{ty, "func (ci *ChainIndex) UnmarshalText(b []byte) (err error) {", "func (ci *ChainIndex) unmarshalText(b []byte) (err error) {"},
+		Edit{ty, "\terr = ci.UnmarshalText([]byte(s))\n\treturn\n}\n\n// String implements fmt.Stringer.\nfunc (s Specifier)", "\terr = ci.unmarshalText([]byte(s))\n\treturn\n}\n\n// String implements fmt.Stringer.\nfunc (s Specifier)"})
+	mut("C20", "(benign) StorageProof JSON decoder with explicit tags", false, "",
+		Edit{ty, "\t\tParentID *FileContractID\n\t\tLeaf     *string\n\t\tProof    *[]Hash256\n\t}{&sp.ParentID, &leaf, &sp.Proof})", "\t\tParentID *FileContractID `json:\"parentID\"`\n\t\tLeaf     *string         `json:\"leaf\"`\n\t\tProof    *[]Hash256      `json:\"proof\"`\n\t}{&sp.ParentID, &leaf, &sp.Proof})"})
+}
